@@ -258,6 +258,12 @@ def install(sim, extra_code_prefixes=()):
     from pyworkers._remote_pickle import state as RST, remote_pickler_3_6 as RPK
 
     th, mp, so = ThreadingFacade, MPFacade, SocketFacade()
+    ecodes = []
+    if _os.environ.get('VERIF_STDLIB_EVENT'):
+        # threading.Event from the standard library's source (over the simulated C-semantics lock): experimental switch
+        from . import stdq as _stdq
+        _Ev, ecodes = _stdq.build_event()
+        th = type('ThreadingFacadeWithStdEvent', (ThreadingFacade,), {'Event': _Ev})
     osf, sg, tm = OsFacade(), SignalFacade(), TimeFacade()
 
     U.threading = th
@@ -324,7 +330,7 @@ def install(sim, extra_code_prefixes=()):
         'BraceMessage', 'BraceStyleAdapter', 'get_logger', 'classproperty', 'staticproperty',
         'SupportClassPropertiesMeta', 'LazyModule', 'add_module_properties', 'python_is', 'is_windows',
         'typename', 'setproctitle', 'setthreadtitle', '_get_'))
-    codes = codes + list(qcodes)
+    codes = codes + list(qcodes) + [c for c in ecodes if c not in qcodes]
     if not _os.environ.get('VERIF_NO_STDLIB_CONN'):
         # multiprocessing.connection: SimConnection inherits the stdlib's Python code for send / recv / framing; instrumenting
         # it makes every line of it a pre-emption point and every eval-breaker check in it a landing place (e.g. between
